@@ -7,7 +7,6 @@ import (
 	"fmt"
 	"math/big"
 
-	"github.com/smartcontractkit/chainlink-data-streams/mercury"
 )
 
 const mercMaxU32 = ^uint32(0)
@@ -31,9 +30,33 @@ type mercScn struct {
 	split      bool // the correct observers all report different max-finalized values this round (no f+1 agreement)
 }
 
+// indepEncInt192 / indepDecInt192: the wire form of an int192 (24 bytes, big-endian two's complement), written
+// out here so that neither the generators nor the monitors depend on the repository's own encoder / decoder
+func indepEncInt192(v *big.Int) ([]byte, bool) {
+	if v.Cmp(mercBigMinInt192) < 0 || v.Cmp(mercBigMaxInt192) > 0 {
+		return nil, false
+	}
+	m := new(big.Int).Set(v)
+	if m.Sign() < 0 {
+		m.Add(m, new(big.Int).Lsh(big.NewInt(1), 192))
+	}
+	return m.FillBytes(make([]byte, 24)), true
+}
+
+func indepDecInt192(b []byte) (*big.Int, bool) {
+	if len(b) != 24 {
+		return nil, false
+	}
+	v := new(big.Int).SetBytes(b)
+	if b[0]&0x80 != 0 {
+		v.Sub(v, new(big.Int).Lsh(big.NewInt(1), 192))
+	}
+	return v, true
+}
+
 func mercI192(v *big.Int) string {
-	b, err := mercury.EncodeValueInt192(v)
-	if err != nil {
+	b, ok := indepEncInt192(v)
+	if !ok {
 		// not representable: a faulty node can only send some 24 bytes; send a wrong length instead
 		return hexs(make([]byte, 25))
 	}
@@ -79,6 +102,26 @@ func mercRandScn(g *G, v int) *mercScn {
 		s.P = new(big.Int).Add(s.max, big.NewInt(int64(1+g.R.Intn(3))))
 	default:
 		s.P = new(big.Int).Add(s.min, new(big.Int).Rand(g.R, new(big.Int).Add(span, big.NewInt(1))))
+	}
+	if g.R.Intn(6) == 0 {
+		s.min, s.max = new(big.Int).Set(mercBigMinInt192), new(big.Int).Set(mercBigMaxInt192)
+		// prices at the edges of the machine words (a decoder or comparator that takes a short cut through int64 /
+		// uint64 / int128 is wrong exactly there); the correct observers' jitter straddles the edge
+		k := []uint{31, 32, 63, 63, 64, 64, 127, 128}[g.R.Intn(8)]
+		s.P = new(big.Int).Lsh(big.NewInt(1), k)
+		s.P.Add(s.P, big.NewInt(int64(g.R.Intn(7)-3)))
+		if g.R.Intn(3) != 0 {
+			s.P.Neg(s.P)
+		}
+		if g.R.Intn(2) == 0 {
+			// somewhere inside the window between two word sizes, e.g. [-2^64, -2^63)
+			off := new(big.Int).Rand(g.R, new(big.Int).Lsh(big.NewInt(1), k))
+			if s.P.Sign() < 0 {
+				s.P.Sub(s.P, off)
+			} else {
+				s.P.Add(s.P, off)
+			}
+		}
 	}
 	s.spread = int64(g.R.Intn(4))
 	switch g.R.Intn(8) {
